@@ -26,7 +26,7 @@ Definition is_digit (c : N) : bool := N.leb 48 c && N.leb c 57.
 Fixpoint span_digits (t : str) : str * str :=
   match t with
   | [] => ([], [])
-  | c :: r => if is_digit c then (c :: fst (span_digits r), snd (span_digits r)) else ([], t)
+  | c :: r => if is_digit c then (let p := span_digits r in (c :: fst p, snd p)) else ([], t)
   end.
 
 Definition take_sign (t : str) : sign * str :=
@@ -41,15 +41,17 @@ Definition take_sign (t : str) : sign * str :=
 Definition split_num (t : str) : option lexeme :=
   let sg := fst (take_sign t) in
   let t1 := snd (take_sign t) in
-  let ds := fst (span_digits t1) in
-  let t2 := snd (span_digits t1) in
+  let p1 := span_digits t1 in
+  let ds := fst p1 in
+  let t2 := snd p1 in
   let plain := match ds with [] => None | _ => Some (mkLex sg ds None t2) end in
   match t2 with
   | c :: t3 =>
     if N.eqb c 46 then
-      match fst (span_digits t3) with
+      let p2 := span_digits t3 in
+      match fst p2 with
       | [] => plain
-      | fs => Some (mkLex sg ds (Some fs) (snd (span_digits t3)))
+      | fs => Some (mkLex sg ds (Some fs) (snd p2))
       end
     else plain
   | [] => plain
